@@ -388,7 +388,44 @@ def check_one(ctx, ids, b, obs, model, tag=None, shrinker=None):
         if why:
             report(ctx, 'correspondence', 'model', why, ids, b, tag=tag)
             reported = True
+    # --- w5-c09wire: coverage of the template classes of the link theorems (begin) ---
+    if model is not None and 'err' not in model and 'quiet' in model:
+        link_coverage(ctx, ids, obs, model)
+    # --- w5-c09wire (end) ---
     return reported
+
+
+# --- w5-c09wire (begin) -----------------------------------------------------------------------
+def link_coverage(ctx, ids, obs, model):
+    """How many decoded messages fall inside the classes on which the link coder -> wiring pass is PROVED
+    (`quietList`: Props/C09.lean uncompressed, Props/C09Wire.lean compressed) or stated and evaluated per case
+    (`wireLinksOK`, Lemmas/WireSimLinks.lean: 206 and the bitmap machine without 204).  Inside `wireLinksOK` the
+    statement itself (pass succeeds, side conditions hold) is evaluated on the model; a failure would refute the
+    conjectured theorem and is printed (it is not a defect of pybufrkit)."""
+    comp = bool(obs.get('compressed'))
+    sfx = ':compressed' if comp else ':uncompressed'
+    q, wl = model.get('quiet', 0), bool(model.get('wire_links_ok'))
+    wire_ok = not isinstance(model.get('wire'), dict)
+    side = model.get('side_ok') or []
+    side_ok = bool(side) and ((side[0] is True) if comp else all(x is True for x in side))
+    ctx.count('link:decoded' + sfx)
+    if q:
+        ctx.count('link:inside-quietList(proved)' + sfx)
+        if not (wire_ok and side_ok):
+            print('NOTE: C09 link theorem contradicted by the model on a quietList template (ids %s)' % (ids or [])[:40])
+            ctx.count('link:quietList-statement-FAILS')
+    if wl:
+        ctx.count('link:inside-wireLinksOK' + sfx)
+        if not q:
+            ctx.count('link:inside-wireLinksOK-not-quietList' + sfx)
+        if not (wire_ok and side_ok):
+            print('NOTE: C09 conjecture wireLinksOK => wired refuted on the model (ids %s)' % (ids or [])[:40])
+            ctx.count('link:wireLinksOK-statement-FAILS')
+    if not q and not wl:
+        ctx.count('link:outside-both' + sfx)
+        if not (wire_ok and side_ok):
+            ctx.count('link:outside-both-and-statement-fails' + sfx)
+# --- w5-c09wire (end) -------------------------------------------------------------------------
 
 
 def run(ctx):
